@@ -51,6 +51,10 @@ fn main() {
     };
     std::thread::spawn(move || {
         std::thread::sleep(std::time::Duration::from_secs(limit));
+        if vharness::engine::VIOLATION_SEEN.load(std::sync::atomic::Ordering::SeqCst) {
+            eprintln!("watchdog expired after {limit} s; a violation was already reported");
+            std::process::exit(1);
+        }
         eprintln!("INCONCLUSIVE: watchdog expired after {limit} s");
         std::process::exit(2);
     });
